@@ -754,7 +754,7 @@ static int ec_lnum(char *loc, char *cmd, char *arg, char *txt)
 {
 	char msg[128];
 	int beg, end;
-	if (ex_region(loc, &beg, &end) || !end)
+	if (ex_region(loc, &beg, &end) || (!end && lbuf_len(xb)))
 		return 1;
 	sprintf(msg, "%d\n", end);
 	ex_print(msg);
